@@ -37,7 +37,26 @@ type rdTr struct {
 	hasErr  bool
 	// the function returns a pointer that may be nil: Ok None / Ok (Some fields)
 	optional bool
+	// an error-only function returned success before its end: the written state is filled in afterwards
+	earlyRet bool
+	needFuel bool // a translated callee takes fuel
+	// functions outside ice that stay parameters of the translation: name -> Coq type
+	externals map[string]string
 }
+
+// signatures of the loaders translated so far (for calls between them)
+type rdSig struct {
+	fuel     bool
+	fixed    []string // parameter names
+	free     []string // receiver paths of the callee, with the callee's receiver name as prefix
+	recv     string
+	optional bool
+	results  []string // types of the non-error results
+}
+
+var rdSigs = map[string]rdSig{}
+
+const writtenMark = "\x01WRITTEN\x01"
 
 func (t *rdTr) bad(n ast.Node, what string) {
 	fail("%s: unsupported %s at %s", t.key, what, fset.Position(n.Pos()))
@@ -112,7 +131,11 @@ func (t *rdTr) goType(e ast.Expr) string {
 			}
 		}
 	case *ast.MapType:
-		return "map:" + t.goType(x.Key) + ":" + t.goType(x.Value)
+		v := t.goType(x.Value)
+		if strings.HasPrefix(v, "struct:") {
+			v = "obj" // a pointer to an object built by another translated function
+		}
+		return "map:" + t.goType(x.Key) + ":" + v
 	case *ast.SelectorExpr:
 		if id, ok := x.X.(*ast.Ident); ok && id.Name == "segment" && x.Sel.Name == "Data" {
 			return "data"
@@ -140,7 +163,7 @@ func coqType(ty string) string {
 		parts := strings.Split(ty, ":")
 		return "(list (" + coqType(parts[1]) + " * " + coqType(parts[2]) + "))"
 	}
-	return "?"
+	return "_"
 }
 
 // a.b.c -> ("a_b_c", type)
@@ -268,6 +291,20 @@ func (t *rdTr) expr(e ast.Expr, want string) (string, string) {
 					return "(wrap32 (" + a + " * " + b + "))", ty
 				}
 			}
+		case token.QUO:
+			// only by a constant that is not zero (no run-time panic to model)
+			inner := x.Y
+			if c, ok := inner.(*ast.CallExpr); ok && len(c.Args) == 1 {
+				inner = c.Args[0]
+			}
+			if v, ok := t.p.evalConst(inner); ok && v.Sign() > 0 {
+				_, ta := t.peek(x.X)
+				if ta == "u64" {
+					a, _ := t.expr(x.X, "u64")
+					b, _ := t.expr(x.Y, "u64")
+					return "(N.div " + a + " " + b + ")", "u64"
+				}
+			}
 		case token.EQL, token.NEQ, token.LSS, token.LEQ, token.GTR, token.GEQ:
 			_, ta := t.peek(x.X)
 			_, tb := t.peek(x.Y)
@@ -369,7 +406,7 @@ func (t *rdTr) peek(e ast.Expr) (string, string) {
 		}
 	case *ast.BinaryExpr:
 		switch x.Op {
-		case token.ADD, token.SUB, token.MUL:
+		case token.ADD, token.SUB, token.MUL, token.QUO:
 			if _, ta := t.peek(x.X); ta != "" {
 				return "", ta
 			}
@@ -619,11 +656,41 @@ func (t *rdTr) stmts(list []ast.Stmt, k func() string) string {
 				return "if " + c + " then (\n  " + t.stmts(append(append([]ast.Stmt{}, x.Body.List...), rest...), k) + ") else Err"
 			}
 		}
-		t.bad(s, "if statement (only `if c { return ... }` and `if c { ... } else { return error }`)")
+		// if c { x = e; ... } (plain assignments only): the variables keep their value otherwise
+		if x.Else == nil && onlyAssignments(x.Body.List) {
+			if be, ok := x.Cond.(*ast.BinaryExpr); !(ok && be.Op == token.NEQ && isIdent(be.Y, "nil")) {
+				m := map[string]bool{}
+				t.assignedIn(x.Body.List, m)
+				vs := sortedKeys(m)
+				for _, v := range vs {
+					if !t.bound[v] {
+						t.bad(s, "conditional assignment to a variable without a value")
+					}
+				}
+				c, _ := t.expr(x.Cond, "bool")
+				thenC := t.stmts(x.Body.List, func() string { return "Ok " + vtuple(vs) })
+				return "do " + strings.TrimPrefix(vpattern(vs), "'") + " <- (if " + c + " then\n  " + thenC + "\n  else Ok " + vtuple(vs) + ");\n  " + cont()
+			}
+		}
+		// if p != nil { assignments }: p is the optional result of a translated loader
+		if be, ok := x.Cond.(*ast.BinaryExpr); ok && x.Else == nil && be.Op == token.NEQ && isIdent(be.Y, "nil") {
+			if id, ok := be.X.(*ast.Ident); ok && t.types[id.Name] == "opt" {
+				m := map[string]bool{}
+				t.assignedIn(x.Body.List, m)
+				vs := sortedKeys(m)
+				t.types[id.Name] = "obj" // inside the branch the name stands for the object
+				thenC := t.stmts(x.Body.List, func() string { return "Ok " + vtuple(vs) })
+				t.types[id.Name] = "opt"
+				return "do " + strings.TrimPrefix(vpattern(vs), "'") + " <- match v_" + id.Name + " with\n    | Some v_" + id.Name + " =>\n  " + thenC + "\n    | None => Ok " + vtuple(vs) + " end;\n  " + cont()
+			}
+		}
+		t.bad(s, "if statement (only `if c { return ... }`, `if c { ... } else { return error }`, `if p != nil { assignments }`)")
 	case *ast.ReturnStmt:
 		return t.ret(x)
 	case *ast.ForStmt:
 		return t.loop(x, rest, k)
+	case *ast.RangeStmt:
+		return t.rangeLoop(x, rest, k)
 	}
 	t.bad(s, "statement")
 	return ""
@@ -638,7 +705,7 @@ func (t *rdTr) ret(r *ast.ReturnStmt) string {
 		res = res[:len(res)-1]
 	}
 	if len(res) == 0 {
-		return "Ok " + vtuple(sortedKeys(t.written))
+		return "Ok " + writtenMark
 	}
 	if len(res) == 1 && t.optional {
 		if isIdent(res[0], "nil") {
@@ -720,6 +787,83 @@ func (t *rdTr) assign(x *ast.AssignStmt, rest []ast.Stmt, k func() string) strin
 				v := t.bind(x.Lhs[0], "bytes")
 				return "do " + v + " <- data_read_int " + d + " " + a + " " + b + ";\n  " + t.stmts(rest[1:], k)
 			}
+		}
+	}
+	// p, err := recv.loader(args...)  followed by the error return: a loader translated earlier
+	if len(x.Lhs) == 2 && len(x.Rhs) == 1 && isIdent(x.Lhs[1], "err") {
+		if c, ok := x.Rhs[0].(*ast.CallExpr); ok {
+			if sel, ok := c.Fun.(*ast.SelectorExpr); ok && isIdent(sel.X, t.recv) && t.recv != "" {
+				rty := strings.TrimPrefix(t.types[t.recv], "struct:")
+				if sig, ok := rdSigs[rty+"."+sel.Sel.Name]; ok {
+					if len(rest) == 0 || !t.isErrReturn(rest[0]) {
+						t.bad(x, "call whose error is not returned by the next statement")
+					}
+					if len(c.Args) != len(sig.fixed) {
+						t.bad(x, "argument count of the call")
+					}
+					call := "g_" + coqName(rty+"."+sel.Sel.Name)
+					if sig.fuel {
+						t.needFuel = true
+						call += " fuel"
+					}
+					for _, a := range c.Args {
+						e, _ := t.expr(a, "")
+						call += " " + e
+					}
+					for _, f := range sig.free { // the callee's receiver fields are the caller's
+						name := t.recv + strings.TrimPrefix(f, sig.recv)
+						call += " " + t.ref(name, t.recvPathType(name))
+					}
+					ty := "obj"
+					if sig.optional {
+						ty = "opt"
+					}
+					return "do " + t.bind(x.Lhs[0], ty) + " <- " + call + ";\n  " + t.stmts(rest[1:], k)
+				}
+			}
+		}
+	}
+	// a, b, err = recv.loader(args...) followed by the error return: several results
+	if len(x.Lhs) >= 3 && len(x.Rhs) == 1 && isIdent(x.Lhs[len(x.Lhs)-1], "err") {
+		if c, ok := x.Rhs[0].(*ast.CallExpr); ok {
+			if sel, ok := c.Fun.(*ast.SelectorExpr); ok && isIdent(sel.X, t.recv) && t.recv != "" {
+				rty := strings.TrimPrefix(t.types[t.recv], "struct:")
+				if sig, ok := rdSigs[rty+"."+sel.Sel.Name]; ok && len(sig.results) == len(x.Lhs)-1 {
+					if len(rest) == 0 || !t.isErrReturn(rest[0]) {
+						t.bad(x, "call whose error is not returned by the next statement")
+					}
+					call := "g_" + coqName(rty+"."+sel.Sel.Name)
+					if sig.fuel {
+						t.needFuel = true
+						call += " fuel"
+					}
+					for _, a := range c.Args {
+						e, _ := t.expr(a, "")
+						call += " " + e
+					}
+					for _, f := range sig.free {
+						name := t.recv + strings.TrimPrefix(f, sig.recv)
+						call += " " + t.ref(name, t.recvPathType(name))
+					}
+					var pats []string
+					for i, l := range x.Lhs[:len(x.Lhs)-1] {
+						pats = append(pats, t.bind(l, sig.results[i]))
+					}
+					return "do (" + strings.Join(pats, ", ") + ") <- " + call + ";\n  " + t.stmts(rest[1:], k)
+				}
+			}
+		}
+	}
+	// v, err = ZSTDDecompress(dst, src) followed by the error return: zstd is a parameter of the
+	// translated function (the destination only lends its capacity)
+	if len(x.Lhs) == 2 && len(x.Rhs) == 1 && isIdent(x.Lhs[1], "err") {
+		if c, ok := x.Rhs[0].(*ast.CallExpr); ok && isIdent(c.Fun, "ZSTDDecompress") && len(c.Args) == 2 {
+			if len(rest) == 0 || !t.isErrReturn(rest[0]) {
+				t.bad(x, "ZSTDDecompress whose error is not returned by the next statement")
+			}
+			src, _ := t.expr(c.Args[1], "bytes")
+			t.externals["ext_ZSTDDecompress"] = "(bytes -> result bytes)"
+			return "do " + t.bind(x.Lhs[0], "bytes") + " <- ext_ZSTDDecompress " + src + ";\n  " + t.stmts(rest[1:], k)
 		}
 	}
 	// a, b := binary.Uvarint(buf)   (either side may be _ or an element of a slice)
@@ -851,6 +995,23 @@ func (t *rdTr) assign(x *ast.AssignStmt, rest []ast.Stmt, k func() string) strin
 			}
 		}
 	}
+	// v := S[i] on a []uint64 (index out of range panics)
+	if ix, ok := rhs.(*ast.IndexExpr); ok {
+		sl, sty := t.expr(ix.X, "")
+		if sty == "[]u64" {
+			i, _ := t.expr(ix.Index, "int")
+			return "do " + t.bind(lhs, "u64") + " <- go_index " + sl + " " + i + ";\n  " + cont()
+		}
+	}
+	// v := B[lo:hi] on a byte slice (bounds are checked against its length)
+	if se, ok := rhs.(*ast.SliceExpr); ok && se.Low != nil && se.High != nil && se.Max == nil {
+		b, bty := t.expr(se.X, "")
+		if bty == "bytes" {
+			lo, _ := t.expr(se.Low, "int")
+			hi, _ := t.expr(se.High, "int")
+			return "do " + t.bind(lhs, "bytes") + " <- go_slice " + b + " " + lo + " " + hi + ";\n  " + cont()
+		}
+	}
 	// plain value; an existing variable keeps its type, := takes the type of the right-hand side
 	want := ""
 	if x.Tok == token.ASSIGN {
@@ -914,6 +1075,86 @@ func (t *rdTr) loop(x *ast.ForStmt, rest []ast.Stmt, k func() string) string {
 	return out + t.stmts(rest, k)
 }
 
+// for i, x := range S { body }: structural recursion over the list (GenLib.range_r)
+func (t *rdTr) rangeLoop(x *ast.RangeStmt, rest []ast.Stmt, k func() string) string {
+	sl, sty := t.expr(x.X, "")
+	elt := map[string]string{"[]u64": "u64", "[]bytes": "bytes"}[sty]
+	if elt == "" {
+		t.bad(x, "range over "+sty)
+	}
+	idx, val := "_", "_"
+	if id, ok := x.Key.(*ast.Ident); ok && id.Name != "_" {
+		t.types[id.Name] = "int"
+		t.bound[id.Name] = true
+		idx = "v_" + id.Name
+	}
+	if x.Value != nil {
+		if id, ok := x.Value.(*ast.Ident); ok && id.Name != "_" {
+			t.types[id.Name] = elt
+			t.bound[id.Name] = true
+			val = "v_" + id.Name
+		}
+	}
+	m := map[string]bool{}
+	t.assignedIn(x.Body.List, m)
+	var vs []string
+	for _, v := range sortedKeys(m) {
+		_, isVar := t.types[v]
+		if t.bound[v] || (isVar && strings.Contains(v, "_")) || t.isRecvPath(v) {
+			if v == strings.TrimPrefix(idx, "v_") || v == strings.TrimPrefix(val, "v_") {
+				continue
+			}
+			vs = append(vs, v)
+		}
+	}
+	for _, v := range vs {
+		if !t.bound[v] {
+			t.ref(v, t.recvPathType(v))
+			t.written[v] = true
+		}
+	}
+	saveBound := map[string]bool{}
+	for k2, v := range t.bound {
+		saveBound[k2] = v
+	}
+	bodyC := t.stmts(x.Body.List, func() string { return "Ok " + vtuple(vs) })
+	for k2 := range t.bound {
+		if !saveBound[k2] && !contains(t.params, k2) {
+			delete(t.bound, k2)
+		}
+	}
+	out := "do " + strings.TrimPrefix(vpattern(vs), "'") + " <- range_r\n    (fun " + idx + " " + val + " " + vpattern(vs) + " =>\n  " + bodyC + ")\n    0%Z " + sl + " " + vtuple(vs) + ";\n  "
+	return out + t.stmts(rest, k)
+}
+
+func sortedKeysS(m map[string]string) []string {
+	var ks []string
+	for k := range m {
+		ks = append(ks, k)
+	}
+	sort.Strings(ks)
+	return ks
+}
+
+func onlyAssignments(list []ast.Stmt) bool {
+	if len(list) == 0 {
+		return false
+	}
+	for _, s := range list {
+		a, ok := s.(*ast.AssignStmt)
+		if !ok || len(a.Lhs) != 1 || len(a.Rhs) != 1 {
+			return false
+		}
+		if _, ok := a.Lhs[0].(*ast.Ident); !ok {
+			return false
+		}
+		if _, ok := a.Rhs[0].(*ast.CallExpr); ok {
+			return false
+		}
+	}
+	return true
+}
+
 func contains(l []string, s string) bool {
 	for _, x := range l {
 		if x == s {
@@ -957,7 +1198,7 @@ func (p *pkgInfo) translateReader(key string) string {
 	if !ok {
 		fail("function %s not found in the source", key)
 	}
-	t := &rdTr{p: p, fd: fd, key: key, types: map[string]string{}, bound: map[string]bool{}, written: map[string]bool{}, structs: map[string]string{}}
+	t := &rdTr{p: p, fd: fd, key: key, types: map[string]string{}, bound: map[string]bool{}, written: map[string]bool{}, structs: map[string]string{}, externals: map[string]string{}}
 	if fd.Recv != nil && len(fd.Recv.List) == 1 && len(fd.Recv.List[0].Names) == 1 {
 		t.recv = fd.Recv.List[0].Names[0].Name
 		t.types[t.recv] = t.goType(fd.Recv.List[0].Type)
@@ -983,7 +1224,7 @@ func (p *pkgInfo) translateReader(key string) string {
 			}
 			for _, n := range f.Names { // named results start at their zero value
 				ty := t.goType(f.Type)
-				zero := map[string]string{"u64": "0%N", "u32": "0%N", "int": "0%Z"}[ty]
+				zero := map[string]string{"u64": "0%N", "u32": "0%N", "int": "0%Z", "bytes": "([] : bytes)"}[ty]
 				if zero == "" {
 					t.bad(f, "named result type")
 				}
@@ -1003,16 +1244,46 @@ func (p *pkgInfo) translateReader(key string) string {
 			})
 		}
 	}
+	// a success return of an error-only function before its last statement
+	if n := len(fd.Body.List); n > 0 {
+		last := fd.Body.List[n-1]
+		ast.Inspect(fd.Body, func(nd ast.Node) bool {
+			if r, ok := nd.(*ast.ReturnStmt); ok && ast.Node(r) != ast.Node(last) && len(r.Results) == 1 && isIdent(r.Results[0], "nil") {
+				t.earlyRet = true
+			}
+			return true
+		})
+	}
 	body := t.stmts(fd.Body.List, func() string {
 		if !t.hasErr || len(t.resTypes()) > 0 {
 			fail("%s: control reaches the end of the function", key)
 		}
-		return "Ok " + vtuple(sortedKeys(t.written))
+		return "Ok " + writtenMark
 	})
+	// the receiver state an error-only function leaves behind; on an early return the fields
+	// not yet assigned still have their initial value, which is then a parameter
+	if strings.Contains(body, writtenMark) {
+		if t.earlyRet {
+			for _, w := range sortedKeys(t.written) {
+				if !contains(t.params, w) {
+					t.params = append(t.params, w)
+				}
+			}
+		}
+		body = strings.ReplaceAll(body, writtenMark, vtuple(sortedKeys(t.written)))
+	}
 	var ps []string
-	if t.hasLoop {
+	if t.hasLoop || t.needFuel {
 		ps = append(ps, "(fuel : nat)")
 	}
+	var free []string
+	for _, n := range t.params {
+		free = append(free, n)
+	}
+	for _, e := range sortedKeysS(t.externals) {
+		ps = append(ps, "("+e+" : "+t.externals[e]+")")
+	}
+	rdSigs[key] = rdSig{fuel: t.hasLoop || t.needFuel, fixed: fixed, free: free, recv: t.recv, optional: t.optional, results: t.resTypes()}
 	for _, n := range fixed {
 		ps = append(ps, "(v_"+n+" : "+coqType(t.types[n])+")")
 	}
